@@ -120,6 +120,7 @@ func c18Ops() []c18op {
 		{"Sub(MT,MT)", func(s *c18shared) string { return dig(tensor.Sub(s.MT, s.MT)) }},
 		{"Lt(SV,private)", func(s *c18shared) string { return dig(tensor.Lt(s.SV, priv())) }},
 		{"MulScalar(M)", func(s *c18shared) string { return dig(tensor.Mul(s.M, 2.0)) }},
+		{"GtScalar(SV)", func(s *c18shared) string { return dig(tensor.Gt(s.SV, 7.0)) }},
 		{"Neg(MT)", func(s *c18shared) string { return dig(tensor.Neg(s.MT)) }},
 		{"Sum(M,0)", func(s *c18shared) string { return dig(tensor.Sum(s.M, 0)) }},
 		{"Sum(SV)", func(s *c18shared) string { return dig(tensor.Sum(s.SV)) }},
@@ -212,7 +213,7 @@ func runC18(r *core.Run) {
 	isHot := map[int]bool{}
 	for i, op := range ops {
 		switch op.name {
-		case "Dot(V,M)", "Dot(V2,MT)", "TensorMul(MT,M)", "Sum(M,0)", "private:New+Return", "private:T+UT+Transpose", "Concat(M,SV)", "MultIter(M,SV)":
+		case "Dot(V,M)", "Dot(V2,MT)", "TensorMul(MT,M)", "Sum(M,0)", "private:New+Return", "private:T+UT+Transpose", "Concat(M,SV)", "MultIter(M,SV)", "MulScalar(M)", "GtScalar(SV)":
 			hot = append(hot, i)
 			isHot[i] = true
 		}
